@@ -791,6 +791,10 @@ class Loops:
             return seq[2] - seq[1]          # built only with end >= start (see stdmodel.m_into_iter / counter_while_loop)
         if k == "take":
             return seq[2]                   # absolute end index, built only when it is below the inner count
+        if k == "bytes_mut":
+            return seq[1].length()
+        if k == "zip":
+            return seq[5]                   # the shorter of the two remaining lengths (chosen by a state split at creation)
         if k == "take_while":
             # an unknown number of leading elements (bounded by the inner count, see Loops.assume_count_bounds)
             return Lin.atom(("cnt", ("take_while", self.seq_key(seq))))
@@ -875,6 +879,14 @@ class Loops:
             return [(st, IntV(seq[1] + k, seq[3]))]
         if kind == "take":
             return self.elem_of(st, seq[1], k, e)
+        if kind == "bytes_mut":
+            return [(st, MemRefV(seq[1], IntV(k, "usize")))]
+        if kind == "zip":
+            out = []
+            for s1, x in self.elem_of(st, seq[1], seq[2] + k, e):
+                for s2, y in self.elem_of(s1, seq[3], seq[4] + k, e):
+                    out.append((s2, TupV([x, y])))
+            return out
         if kind == "take_while":
             out = []
             for s, v in self.elem_of(st, seq[1], k, e):
